@@ -58,9 +58,10 @@ def check_model(net, bounds, interface, stats, rich=False):
                 v = model.slim_optimize()
                 if not (isinstance(v, float) and math.isnan(v)):
                     bad("slim_optimize did not return NaN for a problem without optimum", repr(v))
-                v = model.slim_optimize(error_value=-7.5)
-                if v != -7.5:
-                    bad("slim_optimize did not return the caller's error value", repr(v))
+                for ev in (-7.5, 0.0):
+                    v = model.slim_optimize(error_value=ev)
+                    if v != ev or isinstance(v, bool):
+                        bad("slim_optimize did not return the caller's error value", repr(v))
             except Exception as exc:
                 bad("slim_optimize raised although an error value was given", repr(exc))
             try:
